@@ -21,6 +21,65 @@ def point (start dt : Rat) (k : Nat) : Rat := start + k * dt
 def tvec (start stop dt : Rat) : List Rat :=
   (List.range (nSteps start stop dt + 1)).map (point start dt)
 
+/-! ### `ProjectSettings` as a state machine: any sequence of `sim_start=`, `sim_end=`, `sim_dt=`, `update_time_vector(...)` -/
+
+structure Settings where
+  start : Rat
+  stop : Rat
+  dt : Rat
+
+/-- the first grid point at or after `e` -/
+def snap (s e d : Rat) : Rat := point s d (nSteps s e d)
+
+def Settings.setEnd (st : Settings) (e : Rat) : Settings := { st with stop := snap st.start e st.dt }
+/-- `sim_dt = d`: the end year is re-snapped onto the new grid -/
+def Settings.setDt (st : Settings) (d : Rat) : Settings := ({ st with dt := d }).setEnd st.stop
+/-- `sim_start = s`: the end year is re-snapped onto the grid of the new start -/
+def Settings.setStart (st : Settings) (s : Rat) : Settings := ({ st with start := s }).setEnd st.stop
+
+/-- `update_time_vector(start, end, dt)`: start first, then the step (re-snapping the old end only when no new end is given),
+    then the new end — so that a new end is snapped exactly once, on the new grid -/
+def Settings.update (st : Settings) (s e d : Option Rat) : Settings :=
+  let st1 := match s with | some s => st.setStart s | none => st
+  let st2 := match d with
+    | some d => (match e with | none => st1.setDt d | some _ => { st1 with dt := d })
+    | none => st1
+  match e with | some e => st2.setEnd e | none => st2
+
+def Settings.init (s e d : Rat) : Settings := ({ start := s, stop := 0, dt := d } : Settings).setEnd e
+
+def Settings.npoints (st : Settings) : Nat := nSteps st.start st.stop st.dt + 1
+
+inductive SOp | setEnd (e : Rat) | setDt (d : Rat) | setStart (s : Rat) | update (s e d : Option Rat)
+
+def Settings.apply (st : Settings) : SOp → Settings
+  | .setEnd e => st.setEnd e
+  | .setDt d => st.setDt d
+  | .setStart s => st.setStart s
+  | .update s e d => st.update s e d
+
+def parseOpt? (t : String) : Option (Option Rat) := if t = "-" then some none else (parseRat? t).map some
+
+def parseOps : List String → Option (List SOp)
+  | [] => some []
+  | "E" :: e :: rest => do let e ← parseRat? e; let r ← parseOps rest; pure (.setEnd e :: r)
+  | "D" :: d :: rest => do let d ← parseRat? d; let r ← parseOps rest; pure (.setDt d :: r)
+  | "S" :: s :: rest => do let s ← parseRat? s; let r ← parseOps rest; pure (.setStart s :: r)
+  | "U" :: s :: e :: d :: rest => do
+      let s ← parseOpt? s; let e ← parseOpt? e; let d ← parseOpt? d; let r ← parseOps rest; pure (.update s e d :: r)
+  | _ => none
+
+/-- driver: `gridops <start> <stop> <dt> <ops…>` → `<start> <stop> <dt> <npoints>` after the operations -/
+def handleOps : List String → Option String
+  | a :: b :: c :: ops => do
+      let s ← parseRat? a
+      let e ← parseRat? b
+      let d ← parseRat? c
+      let ops ← parseOps ops
+      let st := ops.foldl Settings.apply (Settings.init s e d)
+      some (showRat st.start ++ " " ++ showRat st.stop ++ " " ++ showRat st.dt ++ " " ++ toString st.npoints)
+  | _ => none
+
 /-- driver: `grid <start> <stop> <dt>` → `<n> <last>` (n = number of points) -/
 def handle : List String → Option String
   | [a, b, c] => do
